@@ -115,9 +115,9 @@ type World struct {
 	// LogFailAt > 0: the log writer (Command.Stderr / LinterOptions.LogWriter) fails like a full
 	// disk once LogFailAt-1 bytes have been written (not for shared Linters)
 	LogFailAt int
-	Tools        kern.ToolModel
-	Faults       []kern.Fault
-	Note         string // free-text description of how the world was generated
+	Tools     kern.ToolModel
+	Faults    []kern.Fault
+	Note      string // free-text description of how the world was generated
 }
 
 // ErrRec is a diagnostic, by value.
